@@ -234,8 +234,11 @@ def case(seed, idx, tier):
         res['sample'] = dict(common.sample_of(p, [], ev, 600), job=label)
     if not found and ev.built.lines is not None:
         # constants must survive the way a real user's file reaches the compiler, too
-        fp = common.file_path_problem(ev.src, W, stack=400)
+        fired = {}
+        fp = common.file_path_problem(ev.src, W, stack=400, stats=fired)
         res['counters']['file_path_compiles'] = 1
+        for k, v in fired.items():
+            res['faults_fired'][k] = res['faults_fired'].get(k, 0) + v
         if fp:
             res['violations'].append({'cls': fp[0], 'detail': fp[1], 'fingerprint': None,
                                       'payload': common.payload(p, [], ev, {'job': label, 'file_path': True}),
